@@ -4,11 +4,11 @@ from __future__ import annotations
 import ast
 import re
 
-from sa.engine.callgraph import reachable_functions, resolve_call
+from sa.engine.callgraph import calls_in, reachable_functions, resolve_call
 from sa.engine.consts import UNKNOWN
 from sa.engine.context import Ctx
 from sa.engine.fieldflow import AV, FieldFlow
-from sa.engine.loader import AnalysisError, FuncInfo, dotted, norm, short, walk_own
+from sa.engine.loader import AnalysisError, FuncInfo, anorm, dotted, norm, short, walk_own
 from sa.engine.report import Finding, RuleReport
 from sa.engine.treewalk import Extractor, Product
 from sa.rules.common import DT, X, implementers
@@ -51,7 +51,7 @@ TRUSTED = [
     "value conditions inside walkers are taken as 'leaf present and non-empty'; flags at their defaults",
     "int() of a \\d+ group is taken as total (the 4300-digit limit of CPython is outside the document model)",
 ]
-FLOORS = {"C02-WALK": 150, "C02-EXCL": 30, "C02-SINK": 6, "C02-FALLBACK": 20, "C02-ONCE": 100, "C02-TRIM": 8}
+FLOORS = {"C02-WALK": 150, "C02-EXCL": 30, "C02-SINK": 6, "C02-FALLBACK": 20, "C02-BYTES": 15, "C02-ONCE": 100, "C02-TRIM": 8}
 
 # ------------------------------------------------------------------------------------------------ WALK
 
@@ -751,6 +751,127 @@ def rule_fallback(ctx: Ctx) -> RuleReport:
     return rep
 
 
+MHTML = X + "mhtml_extractor.py"
+PLAIN = X + "plain_extractor.py"
+ASCII_TRANSFER = {"quoted-printable", "base64"}  # transfer encodings whose payload is ASCII by definition
+
+
+def _derived(fn_node, seeds: set[str]) -> set[str]:
+    """Locals whose value is computed from one of `seeds` (assignment closure, flow-insensitive)."""
+    out = set(seeds)
+    changed = True
+    while changed:
+        changed = False
+        for n in walk_own(fn_node):
+            if isinstance(n, ast.Assign) and len(n.targets) == 1 and isinstance(n.targets[0], ast.Name) and n.targets[0].id not in out:
+                if any(isinstance(x, ast.Name) and x.id in out for x in ast.walk(n.value)):
+                    out.add(n.targets[0].id)
+                    changed = True
+    return out
+
+
+def rule_bytes(ctx: Ctx) -> RuleReport:
+    """The bytes that become text are the bytes of the source, decoded once, with the charset judged on all of them."""
+    rep = RuleReport("C02-BYTES", "bytes that become body text: MIME parts are recovered through the bytes API, nothing is transcoded before a reader that sniffs its own charset, "
+                     "the charset detector sees the whole input and lossy decoding is the last resort")
+    # (a) MIME parts: get_payload(decode=False) is a str in which the stdlib has already replaced non-ASCII bytes
+    n_sites = 0
+    for rel in (MHTML, X + "mail/mbox_email_extractor.py", X + "mail/eml_email_extractor.py"):
+        m = ctx.p.module(rel)
+        for fi in m.functions.values():
+            strs, byts = set(), set()
+            for n in walk_own(fi.node):
+                if isinstance(n, ast.Assign) and len(n.targets) == 1 and isinstance(n.targets[0], ast.Name):
+                    for gp in [c for c in ast.walk(n.value) if isinstance(c, ast.Call) and isinstance(c.func, ast.Attribute) and c.func.attr == "get_payload"]:
+                        dec = next((k.value for k in gp.keywords if k.arg == "decode"), gp.args[1] if len(gp.args) > 1 else None)
+                        (byts if isinstance(dec, ast.Constant) and dec.value is True else strs).add(n.targets[0].id)
+            if not strs and not byts:
+                continue
+            rep.unit(fi.key)
+            n_sites += 1
+            if not strs:
+                rep.ok({"fn": fi.qual, "payload": "get_payload(decode=True) only"})
+                continue
+            lossy = _derived(fi.node, strs) - byts
+            good = _derived(fi.node, byts)
+
+            def visit(body, ascii_ok, bytes_ok):
+                for st in body:
+                    if isinstance(st, ast.Return) and st.value is not None:
+                        names = {x.id for x in ast.walk(st.value) if isinstance(x, ast.Name)}
+                        if names & lossy and not (names & good) and not ascii_ok and not bytes_ok:
+                            rep.fail(Finding("C02-BYTES", rel, fi.qual, "str payload returned as bytes: " + anorm(st.value, fi.node),
+                                             f"`{short(st, 60)}` returns bytes rebuilt from the str of get_payload(decode=False) outside a quoted-printable/base64 branch: for 8bit/binary parts the email package has already replaced every non-ASCII byte in that str, so the non-ASCII text of the page is lost (sibling readers use get_payload(decode=True))", line=st.lineno))
+                        else:
+                            rep.ok({"fn": fi.qual, "return": short(st, 50), "source": "bytes API" if names & good else "ASCII transfer branch" if ascii_ok else "already bytes" if bytes_ok else "no payload"})
+                    elif isinstance(st, ast.If):
+                        consts = {c.value for c in ast.walk(st.test) if isinstance(c, ast.Constant) and isinstance(c.value, str)}
+                        is_bytes = isinstance(st.test, ast.Call) and norm(st.test.func) == "isinstance" and len(st.test.args) == 2 and norm(st.test.args[1]) == "bytes"
+                        visit(st.body, ascii_ok or bool(consts & ASCII_TRANSFER), bytes_ok or is_bytes)
+                        visit(st.orelse, ascii_ok, bytes_ok)
+                    elif isinstance(st, ast.Try):
+                        visit(st.body, ascii_ok, bytes_ok)
+                        for h in st.handlers:
+                            visit(h.body, ascii_ok, bytes_ok)
+                        visit(st.orelse, ascii_ok, bytes_ok)
+                        visit(st.finalbody, ascii_ok, bytes_ok)
+                    elif isinstance(st, (ast.For, ast.While, ast.With)):
+                        visit(st.body, ascii_ok, bytes_ok)
+
+            visit(fi.node.body, False, False)
+    if n_sites < 3:
+        raise AnalysisError(f"C02-BYTES: only {n_sites} functions read MIME payloads (3 confirmed)")
+    # (b) nothing between the MIME part and read_html re-encodes the bytes: read_html sniffs <meta charset> itself
+    m = ctx.p.module(MHTML)
+    rh = [c for fi in m.functions.values() for c in calls_in(fi) if (dotted(c.func) or "") == "read_html"]
+    if not rh:
+        raise AnalysisError("C02-BYTES: mhtml_extractor no longer hands the HTML part to read_html")
+    for fi in m.functions.values():
+        rep.unit(fi.key)
+        decoded = set()
+        for n in walk_own(fi.node):
+            if isinstance(n, ast.Assign) and len(n.targets) == 1 and isinstance(n.targets[0], ast.Name) and any(isinstance(c, ast.Call) and isinstance(c.func, ast.Attribute) and c.func.attr == "decode" and not (isinstance(c.func.value, ast.Name) and c.func.value.id in ("base64", "quopri")) for c in ast.walk(n.value)):
+                decoded.add(n.targets[0].id)
+        bad = None
+        for c in ast.walk(fi.node):
+            if isinstance(c, ast.Call) and isinstance(c.func, ast.Attribute) and c.func.attr == "encode":
+                recv = c.func.value
+                if (isinstance(recv, ast.Call) and isinstance(recv.func, ast.Attribute) and recv.func.attr == "decode") or (isinstance(recv, ast.Name) and recv.id in decoded):
+                    bad = c
+        if bad is not None:
+            rep.fail(Finding("C02-BYTES", MHTML, fi.qual, "transcoded: " + anorm(bad, fi.node), f"`{short(bad, 70)}` re-encodes the HTML part before read_html sees it; read_html decodes by the page's own <meta charset>, so a page that declares the same legacy charset in the MIME header and in its <meta> tag is decoded twice (every non-ASCII character becomes mojibake)", line=bad.lineno))
+        else:
+            rep.ok({"fn": fi.qual, "transcoding": "none"})
+    # (c) plain text: the detector judges the whole input; the text is what the detector decoded; lossy decoding only after it failed
+    dd = ctx.p.func(PLAIN, "_detect_and_decode")
+    rep.unit(dd.key)
+    param = dd.node.args.args[0].arg
+    det = [c for c in calls_in(dd) if (dotted(c.func) or "").split(".")[-1] == "from_bytes"]
+    if len(det) != 1:
+        raise AnalysisError("C02-BYTES: _detect_and_decode no longer calls charset_normalizer.from_bytes exactly once")
+    a = det[0].args[0] if det[0].args else None
+    if isinstance(a, ast.Name) and a.id == param and not any(isinstance(n, (ast.Assign, ast.AugAssign)) and any(isinstance(t, ast.Name) and t.id == param for t in (n.targets if isinstance(n, ast.Assign) else [n.target])) for n in walk_own(dd.node)):
+        rep.ok({"detector_input": "the whole content"})
+    else:
+        rep.fail(Finding("C02-BYTES", PLAIN, dd.qual, "detector input: " + (anorm(a, dd.node) if a is not None else "?"), f"the charset detector is given `{short(a, 60) if a is not None else '?'}` instead of the whole content: the encoding of a part is not the encoding of the file (an ASCII-only head followed by UTF-8 is judged ascii and the rest is destroyed)", line=det[0].lineno))
+    res = {n.targets[0].id for n in walk_own(dd.node) if isinstance(n, ast.Assign) and len(n.targets) == 1 and isinstance(n.targets[0], ast.Name) and any(x is det[0] for x in ast.walk(n.value))}
+    res = _derived(dd.node, res)
+    succ = [i for i in walk_own(dd.node) if isinstance(i, ast.If) and isinstance(i.test, ast.Compare) and isinstance(i.test.left, ast.Name) and i.test.left.id in res and isinstance(i.test.ops[0], ast.IsNot)]
+    if len(succ) != 1:
+        raise AnalysisError("C02-BYTES: the `best match is not None` branch of _detect_and_decode was not found")
+    inside = {id(x) for st in succ[0].body for x in ast.walk(st)}
+    handlers = {id(x) for t in ast.walk(succ[0]) if isinstance(t, ast.Try) for h in t.handlers for st in h.body for x in ast.walk(st)}
+    for c in ast.walk(dd.node):
+        if isinstance(c, ast.Call) and isinstance(c.func, ast.Attribute) and c.func.attr == "decode":
+            err = next((k.value for k in c.keywords if k.arg == "errors"), c.args[1] if len(c.args) > 1 else None)
+            lossy_dec = isinstance(err, ast.Constant) and err.value in ("replace", "ignore")
+            if id(c) in inside and id(c) not in handlers:
+                rep.fail(Finding("C02-BYTES", PLAIN, dd.qual, "decode in detected branch: " + anorm(c, dd.node), f"when the detector has an answer the text must be the detector's own decoding (`str(best_match)`), not `{short(c, 60)}`: the detector's answer describes exactly the bytes it was given" + (", and errors='replace' invents U+FFFD for every byte the guess does not cover" if lossy_dec else ""), line=c.lineno))
+            else:
+                rep.ok({"decode": short(c, 50), "where": "fallback after detection failed"})
+    return rep
+
+
 def rule_once(ctx: Ctx) -> RuleReport:
     """A text accessor that writes into the stored pieces (e.g. extends body_text while combining) repeats text on the next call."""
     from sa.rules.c06 import rule_pure
@@ -775,4 +896,4 @@ def rule_trim(ctx: Ctx) -> RuleReport:
     return rep
 
 
-RULES = [rule_walk, rule_excl, rule_sink, rule_fallback, rule_once, rule_trim]
+RULES = [rule_walk, rule_excl, rule_sink, rule_fallback, rule_bytes, rule_once, rule_trim]
